@@ -57,6 +57,17 @@ def tagged_newtype_programs(ctx):
         for of in ofs:
             nones = {"k": "struct", "vs": [{"k": "none"}, {"k": "none"}, {"k": "none"}, {"k": "none"}, {"k": "bool", "b": True}]}
             probes.append({"ty": N(of["name"]), "values": [nones] + g.all_variant_values(N(of["name"]), imap)})
+        # a struct that flattens two enums, flattened in turn as the ONLY content of another struct (parentheses of the inner unions)
+        mid = {"kind": "struct", "name": f"X{i}Mid", "shape": "named", "attrs": {}, "generics": [],
+               "fields": [{"name": "e1", "ty": N(XE["name"]), "attrs": {"flatten": True}}, {"name": "e2", "ty": N(IE["name"]), "attrs": {"flatten": True}}]}
+        outer = {"kind": "struct", "name": f"X{i}Outer", "shape": "named", "attrs": {}, "generics": [], "fields": [{"name": "mid", "ty": N(mid["name"]), "attrs": {"flatten": True}}]}
+        outer2 = {"kind": "struct", "name": f"X{i}Outer2", "shape": "named", "attrs": {}, "generics": [],
+                  "fields": [{"name": "own", "ty": P("u8"), "attrs": {}}, {"name": "mid", "ty": N(mid["name"]), "attrs": {"flatten": True}}]}
+        single = {"kind": "struct", "name": f"X{i}Single", "shape": "named", "attrs": {}, "generics": [], "fields": [{"name": "e", "ty": N(IE["name"]), "attrs": {"flatten": True}}]}
+        items += [mid, outer, outer2, single]
+        imap = {x["name"]: x for x in items}
+        for it_ in (mid, outer, outer2, single):
+            probes.append({"ty": N(it_["name"]), "values": g.all_variant_values(N(it_["name"]), imap)})
         progs.append({"items": items, "probes": probes + inner_probes})
     return progs
 
@@ -250,6 +261,20 @@ def run(ctx):
             continue
         prog = (xprogs if pi[0] == "x" else fprogs)[pi[1]] if isinstance(pi, tuple) else c.programs[pi]
         case = {"items": prog["items"], "probe": prog["probes"][qi]["ty"], "value": prog["probes"][qi]["values"][vi], "via": which + "()"}
+        if "ok" in v and v.get("decls_parsed") != v.get("decls_given"):
+            # which declaration is it? an independent grammar decides whether it is TypeScript at all
+            from props import tsgrammar
+            badd = []
+            for d in q["decls"]:
+                try:
+                    tsgrammar.parse_module("export " + d + "\n")
+                except tsgrammar.TsSyntaxError as e:
+                    badd.append((d, str(e)))
+            if badd:
+                fails += 1
+                if fails <= 5:
+                    ctx.violation("a declaration ts-rs generates is not TypeScript: " + badd[0][1], case, {"declaration": badd[0][0]})
+                continue
         if "ok" not in v or v.get("decls_parsed") != v.get("decls_given"):
             unparsed += 1
             if unparsed <= 3:
